@@ -332,9 +332,59 @@ def _loops(toks, s, m, lo, hi):
     return out
 
 
+def r5d_assign_break(src, log):
+    """`let V; loop { .. V = E; break; .. } V }`  ->  the loop as tail with `return E;`:
+    when the function's tail expression is a bare variable declared without initialiser right before a loop, every
+    `V = E; break;` inside that loop is the same as `return E;` (inverse of the usual 'assign then break' refactoring)."""
+    toks = lex(src); m = match_brackets(toks); s = sig(toks)
+    first_open = next(i for i in s if toks[i].text == "{")
+    body_close = m[first_open]
+    ci = s.index(body_close)
+    if ci < 2 or toks[s[ci - 1]].kind != "ident" or toks[s[ci - 2]].text != "}":
+        return src
+    var = toks[s[ci - 1]].text
+    loop_close = s[ci - 2]
+    loop_open = m[loop_close]
+    lo = s.index(loop_open)
+    if toks[s[lo - 1]].text != "loop":
+        return src
+    # declaration `let V;` somewhere before the loop
+    decl = None
+    for k in range(s.index(first_open), lo):
+        if toks[s[k]].text == "let" and toks[s[k + 1]].text == var and toks[s[k + 2]].text == ";":
+            decl = (toks[s[k]].start, toks[s[k + 2]].end)
+    if decl is None:
+        return src
+    edits = [(decl[0], decl[1], ""), (toks[s[ci - 1]].start, toks[s[ci - 1]].end, "")]
+    k = lo
+    n = 0
+    while k < s.index(loop_close):
+        if toks[s[k]].text == var and toks[s[k + 1]].text == "=" and toks[s[k + 2]].text != "=" and toks[s[k - 1]].text in "{};":
+            # find the `;` ending the assignment at depth 0, then require `break ;`
+            j = k + 2
+            while toks[s[j]].text != ";":
+                if toks[s[j]].text in "([{":
+                    j = s.index(m[s[j]])
+                j += 1
+            if toks[s[j + 1]].text == "break" and toks[s[j + 2]].text == ";":
+                edits.append((toks[s[k]].start, toks[s[k + 1]].end, "return"))
+                edits.append((toks[s[j + 1]].start, toks[s[j + 2]].end, ""))
+                n += 1
+                k = j + 2
+                continue
+            else:
+                return src      # some other use of the variable: leave the code alone
+        k += 1
+    if n == 0:
+        return src
+    log["R5d"] = log.get("R5d", 0) + n
+    return _replace(src, edits)
+
+
 def r5_break(src, log):
     """`break E;` -> `return E;` inside a loop that is the tail expression of the fn body
     (the body is the outermost `{}` of the text)"""
+    src = r5d_assign_break(src, log)
     toks = lex(src); m = match_brackets(toks); s = sig(toks)
     # outermost body
     first_open = next(i for i in s if toks[i].text == "{")
@@ -609,7 +659,8 @@ def find_simple_const(src: str, name: str):
     mm = re.search(r"const\s+%s\s*:\s*([^=]+)=\s*([^;]+);" % re.escape(name), text, re.S)
     if not mm or "{" in mm.group(2):
         return None
-    return _line_of(src, a), "pub const %s: %s = %s;" % (name, mm.group(1).strip(), mm.group(2).strip())
+    ty = re.sub(r"&\s*(?!')", "&'static ", mm.group(1).strip())
+    return _line_of(src, a), "pub const %s: %s = %s;" % (name, ty, mm.group(2).strip())
 
 
 def find_simple_method(src: str, name: str):
@@ -650,6 +701,75 @@ def find_simple_method(src: str, name: str):
             etoks = lex(expr)
             expr = "".join(tyname.group(0) if (x.kind == "ident" and x.text == "Self") else x.text for x in etoks)
     return expr
+
+
+def find_simple_fn(src: str, name: str):
+    """a helper `fn name(a: T, b: U) -> R { EXPR }` (plain identifier parameters, body = one expression): (params, EXPR) or None"""
+    try:
+        item_start, fn_kw, bo, bc, toks = find_fn(src, name, None, 1)
+    except ExtractError:
+        return None
+    s = sig(toks); m = match_brackets(toks)
+    k = s.index(fn_kw)
+    j = k + 2
+    while toks[s[j]].text != "(":
+        if toks[s[j]].text == "<":
+            return None
+        j += 1
+    close = s.index(m[s[j]])
+    ptext = src[toks[s[j]].end:toks[s[close]].start]
+    params = []
+    for part in [x.strip() for x in ptext.split(",") if x.strip()]:
+        mm = re.match(r"^(?:mut\s+)?([a-z_]\w*)\s*:", part)
+        if not mm or "self" in part:
+            return None
+        params.append(mm.group(1))
+    body = src[toks[bo].end:toks[bc].start]
+    btoks = [x for x in lex(body) if x.kind not in ("ws", "comment")]
+    if any(x.text == ";" for x in btoks) or any(x.kind == "ident" and x.text in ("let", "return", "loop", "while", "for") for x in btoks):
+        return None
+    expr = " ".join(l.strip() for l in body.strip().split("\n") if not l.strip().startswith("//"))
+    return params, expr
+
+
+def r20b_inline_fns(src, log, fn_map):
+    """R20 for free functions: `name(A, B)` -> `(EXPR[a := (A), b := (B)])`"""
+    n = 0
+    for name, (params, expr) in fn_map.items():
+        while True:
+            toks = lex(src); m = match_brackets(toks); s = sig(toks)
+            hit = None
+            for k, i in enumerate(s):
+                if toks[i].kind == "ident" and toks[i].text == name and k + 1 < len(s) and toks[s[k + 1]].text == "(" \
+                        and (k == 0 or toks[s[k - 1]].text not in (".", ":", "fn")):
+                    c = m[s[k + 1]]
+                    args, depth, cur = [], 0, toks[s[k + 1]].end
+                    for x in range(s[k + 1] + 1, c):
+                        tx = toks[x]
+                        if tx.kind == "punct" and tx.text in "([{":
+                            depth += 1
+                        elif tx.kind == "punct" and tx.text in ")]}":
+                            depth -= 1
+                        elif tx.kind == "punct" and tx.text == "," and depth == 0:
+                            args.append(src[cur:tx.start].strip()); cur = tx.end
+                    last = src[cur:toks[c].start].strip()
+                    if last:
+                        args.append(last)
+                    if len(args) != len(params):
+                        continue
+                    sub = dict(zip(params, args))
+                    e2 = "".join(("(" + sub[x.text] + ")") if (x.kind == "ident" and x.text in sub) else x.text for x in lex(expr))
+                    hit = (toks[i].start, toks[c].end, "(" + e2 + ")")
+                    break
+            if hit is None:
+                break
+            src = _replace(src, [hit])
+            n += 1
+    if n:
+        log["R20"] = log.get("R20", 0) + n
+        log.setdefault("R20.inlined", []).extend(sorted(fn_map))
+    return src
+
 
 
 def r20_inline(src, log, inline_map):
@@ -1512,6 +1632,8 @@ def _gen_function(kv, sections, repo, res: UnitResult, variant) -> list:
     # --- body rules
     if variant.get("inline"):
         body = r20_inline(body, log, variant["inline"])
+    if variant.get("inline_fns"):
+        body = r20b_inline_fns(body, log, variant["inline_fns"])
     for r in rules:
         if r == "R7":
             body = r7_apply(body, log, kv.get("r7map", "result"), kv.get("r7pathmap", "result"), kv.get("r7mapor", "option"))
